@@ -63,49 +63,75 @@ def axis_value(axis):
 
 
 def projection_convention(fi):
-    """Gram-Schmidt style steps:  c = sum(conj(X) * Y ...) ;  w -= sum(Z * c) / w = w - c * Z.
-    The basis is the conjugated operand; the subtraction must multiply the coefficient with that same basis.
-    -> list of (ok, text, node)"""
+    """Gram-Schmidt style steps:  c = sum(conj(X) * Y ...) ;  w -= sum(Z * c) / w = w - c * Z  (the coefficient may be bound to a
+    name first or written inline).  The basis is the conjugated operand; the subtraction must multiply the coefficient with that
+    same basis.  -> list of (ok, text, node)"""
     out = []
     asg = df.assignments(fi.node, into_nested=False)
-    for name, vals in asg.items():
-        for v, p, st in vals:
-            if not (isinstance(v, ast.Call) and (df.is_xnp_call(v) == "sum" or (isinstance(v.func, ast.Attribute) and v.func.attr == "sum"))):
+    bound = {id(v): name for name, vals in asg.items() for v, p, st in vals if p is None}
+    for v in df.calls(fi.node, into_nested=False):
+        if not (df.is_xnp_call(v) == "sum" or (isinstance(v.func, ast.Attribute) and v.func.attr == "sum")):
+            continue
+        arg = v.args[0] if v.args else (v.func.value if isinstance(v.func, ast.Attribute) else None)
+        if not (isinstance(arg, ast.BinOp) and isinstance(arg.op, ast.Mult)):
+            continue
+        sides = []
+        for side in (arg.left, arg.right):
+            conj = any(isinstance(c, ast.Call) and (df.is_xnp_call(c) == "conj" or (isinstance(c.func, ast.Attribute) and c.func.attr in ("conj", "conjugate"))) for c in walk_outside_sums(side))
+            base = sorted(n for n in df.names_in(side) if not getattr_is_backend(n))
+            sides.append((conj, base))
+        if sides[0][0] == sides[1][0]:
+            continue  # no (or double) conjugation: not a sesquilinear coefficient
+        basis = sides[0][1] if sides[0][0] else sides[1][1]
+        other = sides[1][1] if sides[0][0] else sides[0][1]
+        name = bound.get(id(v))
+        if name is None:
+            # stored straight into a coefficient buffer:  h = update_array(h, <coefficient>, ...)
+            par = getattr(v, "_parent", None)
+            if isinstance(par, ast.Call) and df.is_xnp_call(par) == "update_array" and len(par.args) >= 2 and par.args[1] is v:
+                name = bound.get(id(par))
+        aliases = coeff_aliases(asg, name) if name is not None else set()
+        inner_nodes = {id(x) for x in ast.walk(v)}
+        for n in df.body_nodes(fi.node, into_nested=False):
+            sub_expr = target = None
+            if isinstance(n, ast.AugAssign) and isinstance(n.op, ast.Sub):
+                sub_expr, target = n.value, n.target
+            elif isinstance(n, ast.Assign) and isinstance(n.value, ast.BinOp) and isinstance(n.value.op, ast.Sub):
+                sub_expr, target = n.value.right, n.value.left
+            if sub_expr is None:
                 continue
-            arg = v.args[0] if v.args else (v.func.value if isinstance(v.func, ast.Attribute) else None)
-            if not (isinstance(arg, ast.BinOp) and isinstance(arg.op, ast.Mult)):
+            inline = any(x is v for x in ast.walk(sub_expr))
+            if not inline and not (aliases & set(df.names_in(sub_expr))):
                 continue
-            sides = []
-            for side in (arg.left, arg.right):
-                conj = any(isinstance(c, ast.Call) and (df.is_xnp_call(c) == "conj" or (isinstance(c.func, ast.Attribute) and c.func.attr in ("conj", "conjugate"))) for c in ast.walk(side))
-                base = sorted(n for n in df.names_in(side) if n not in ("xnp", "self"))
-                sides.append((conj, base))
-            if sides[0][0] == sides[1][0]:
-                continue  # no (or double) conjugation: not a sesquilinear coefficient
-            basis = sides[0][1] if sides[0][0] else sides[1][1]
-            other = sides[1][1] if sides[0][0] else sides[0][1]
-            # find the subtraction that uses the coefficient `name`
-            for n in df.body_nodes(fi.node, into_nested=False):
-                sub_expr = None
-                target = None
-                if isinstance(n, ast.AugAssign) and isinstance(n.op, ast.Sub):
-                    sub_expr, target = n.value, n.target
-                elif isinstance(n, ast.Assign) and isinstance(n.value, ast.BinOp) and isinstance(n.value.op, ast.Sub):
-                    sub_expr, target = n.value.right, n.value.left
-                aliases = coeff_aliases(asg, name)
-                if sub_expr is None or not (aliases & set(df.names_in(sub_expr))):
-                    continue
-                mult_names = set(df.names_in(sub_expr)) - {"xnp", "self"} - aliases
-                tgt_names = set(df.names_in(target))
-                basis_root = {b for b in basis}
-                uses_basis = bool(mult_names & basis_root)
-                removes_from_other = bool(tgt_names & set(other))
-                ok = uses_basis and removes_from_other
-                out.append((ok, f"coefficient `{name} = {ast.unparse(v)[:70]}` conjugates {basis}; `{ast.unparse(n)[:70]}` " +
-                            ("removes basis × coefficient from the new vector" if ok else
-                             f"multiplies the coefficient with {sorted(mult_names)} and updates {sorted(tgt_names)}: the conjugate sits on the vector being orthogonalised, "
-                             "so conj(V^H w) is subtracted instead of V^H w"), n))
+            outside = [x for x in ast.walk(sub_expr) if isinstance(x, ast.Name) and id(x) not in inner_nodes]
+            mult_names = {x.id for x in outside if not getattr_is_backend(x.id)} - aliases
+            tgt_names = set(df.names_in(target))
+            uses_basis = bool(mult_names & set(basis))
+            removes_from_other = bool(tgt_names & set(other))
+            ok = uses_basis and removes_from_other
+            cname = f"`{name} = {ast.unparse(v)[:60]}`" if name is not None else f"`{ast.unparse(v)[:60]}`"
+            out.append((ok, f"coefficient {cname} conjugates {basis}; `{ast.unparse(n)[:70]}` " +
+                        ("removes basis × coefficient from the new vector" if ok else
+                         f"multiplies the coefficient with {sorted(mult_names)} and updates {sorted(tgt_names)}: the conjugate sits on the vector being orthogonalised, "
+                         "so conj(V^H w) is subtracted instead of V^H w"), n))
     return out
+
+
+def walk_outside_sums(e):
+    """nodes of e that are not inside a nested reduction (an inline inner coefficient is a different Gram-Schmidt quantity)"""
+    def is_sum(c):
+        return isinstance(c, ast.Call) and (df.is_xnp_call(c) == "sum" or (isinstance(c.func, ast.Attribute) and c.func.attr == "sum"))
+    yield e
+    if is_sum(e):
+        return
+    for c in ast.iter_child_nodes(e):
+        if is_sum(c):
+            continue
+        yield from walk_outside_sums(c)
+
+
+def getattr_is_backend(name):
+    return name in ("xnp", "self", "np")
 
 
 def coeff_aliases(asg, name):
@@ -214,3 +240,22 @@ def buffer_dtype_obligations(idx, rep, init, rule, operand_names=("start_vector"
                                 f"their imaginary part when `{operand}` is real", detail="narrow", locs=loc)
     if not n:
         rep.undecided(rule, f"{init.short}:buffers", "no call site with a start-vector parameter found")
+
+
+def first_column_obligation(idx, rep, init, column, construct):
+    """the start vector (second parameter of the initialiser) is divided by its own norm -- not in place -- and stored in the given column"""
+    iasg = df.assignments(init.node)
+    rhs = init.params[1]
+
+    def is_norm_of_rhs(e):
+        e = df.resolve_value(init.node, e)
+        return isinstance(e, ast.Call) and df.is_xnp_call(e) == "norm" and e.args and nospace(e.args[0]) == rhs
+
+    divided = any(isinstance(v, ast.BinOp) and isinstance(v.op, ast.Div) and nospace(v.left) == rhs and is_norm_of_rhs(v.right) for v, p, st in iasg.get(rhs, []))
+    inplace = any(isinstance(n, ast.AugAssign) and nospace(n.target) == rhs for n in df.body_nodes(init.node))
+    stores = [c for c in df.calls(init.node) if df.is_xnp_call(c) == "update_array" and len(c.args) >= 2 and rhs in df.names_in(c.args[1])]
+    col_ok = bool(stores) and nospace(stores[0].args[-1]) == column
+    copied = bool(stores) and "copy(" in nospace(stores[0].args[1])
+    ok = divided and col_ok and not inplace
+    rep.decide(ok, "first-column", construct, f"start vector {'divided by its norm' if divided else 'NOT normalised'}{' IN PLACE' if inplace else ''}, stored in column "
+               f"{nospace(stores[0].args[-1]) if stores else '?'}{' (copy)' if copied else ''}", detail="" if ok else "first-column", locs=[idx.loc(init.module, init.node)])
